@@ -74,4 +74,16 @@ PROPS = {
         "trusted_base": ["rayon's indexed collect / any; Rust's Send/Sync typing", "wtrans (syn) extraction of the maybe_parallel! sites"],
         "assumptions": ["every task completes (rayon joins all tasks before collect returns)"],
     },
+    "C16": {
+        "claim": "Lean theorems: dfs_in_order (explicit work stack) equals the recursive program-order walk for every function whose sequence graph unfolds to a finite tree, of any size and depth (in_order_is_program_order); dfs_pre_order_mut scans every sequence of the tree exactly once (pre_order_visits_each_sequence_once); every visited instruction reports each entity operand exactly once for default and overriding visitors (operands_exactly_once), resting on kernel-checked obligations over the Instr table and visitor plumbing regenerated from /repo by the translator on every run. Correspondence: event logs of four recording visitors on parsed and builder-made functions predicted exactly by the model. Oracle: recursive reference walk, per-instruction operand multiset, nesting depth 1e5 on a 256 KiB stack. Call-stack depth is observed, not proved.",
+        "level_note": "Trusted: Lean kernel; wtrans (syn/text extraction of enum Instr and of the macro's quote! blocks); the hand model of the two traversal loops (sampled against the code); harness's reading of the IR (irtext).",
+        "technique": "Lean 4 simulation proof (explicit stack = recursive walk) + translator-generated Instr table + differential event-log correspondence",
+        "lean_modules": ["Walrus.Props.C16"],
+        "gen": ["instrspec"],
+        "suites": [{"name": "visit"}],
+        "rule": "every local function of generated modules (random feature mix) and builder-made functions (random trees built in random insertion orders), each traversed by dfs_in_order and dfs_pre_order_mut with a default-hook and an all-hooks-overridden recording visitor; plus one function of nesting depth 100000. Non-trivial: function with more than one sequence; distinct by request",
+        "strength": "order / exactly-once: full for all finite unfoldings; stack depth observed only",
+        "trusted_base": ["walrus_macro expansion is read textually from its quote! blocks"],
+        "assumptions": ["the sequence graph reachable from the entry is acyclic (instruction trees; a cyclic graph makes the real traversal loop forever)"],
+    },
 }
